@@ -307,6 +307,108 @@ def run_test_cases(ctx, n):
     return ok
 
 
+def run_rules_file_names(ctx):
+    """rules files of which some hold no rule at all (empty, comments only, blank lines) given before, between and after the
+    others, in every order, against two documents: in the JUnit report every test case is named after the rules file it belongs to
+    and carries the mark that file gets on that document alone; in the JSON report the rules of a file stay with their verdict"""
+    import xml.etree.ElementTree as ET
+    files = {'a_empty.guard': '', 'm_comment.guard': '# only a comment\n\n', 'b.guard': 'rule b {\n  x == 2 <<x is not 2>>\n}\n', 'c.guard': 'rule c {\n  x == 1\n}\n',
+             'z_skip.guard': 'rule z when y exists {\n  x == 3\n}\n', 'd1.json': '{"x": 1}', 'd2.json': '{"x": 2}'}
+    alone = {('b.guard', 'd1.json'): 'FAIL', ('b.guard', 'd2.json'): 'PASS', ('c.guard', 'd1.json'): 'PASS', ('c.guard', 'd2.json'): 'FAIL',
+             ('z_skip.guard', 'd1.json'): 'SKIP', ('z_skip.guard', 'd2.json'): 'SKIP'}
+    d = os.path.join(ctx.wd, 'rfn')
+    e2e.write_files(d, files)
+    real, hollow = ['b.guard', 'c.guard', 'z_skip.guard'], ['a_empty.guard', 'm_comment.guard']
+    orders = []
+    for h in hollow:
+        for sub in (['b.guard', 'c.guard'], ['c.guard', 'b.guard'], real):
+            for pos in range(len(sub) + 1):
+                o = list(sub); o.insert(pos, h); orders.append(o)
+    orders.append(hollow + real); orders.append(['b.guard', 'a_empty.guard', 'c.guard', 'm_comment.guard', 'z_skip.guard'])
+    jobs, meta = [], []
+    for o in orders:
+        for dd in (['d1.json', 'd2.json'], ['d2.json']):
+            args = [x for r in o for x in ('-r', r)] + [x for y in dd for x in ('-d', y)]
+            jobs.append({'args': ['validate'] + args + ['--structured', '-o', 'junit', '-S', 'none'], 'cwd': d}); meta.append((tuple(o), tuple(dd), 'junit'))
+            jobs.append({'args': ['validate'] + args + ['--structured', '-o', 'json', '-S', 'none'], 'cwd': d}); meta.append((tuple(o), tuple(dd), 'json'))
+    n = 0
+    for (o, dd, fmt), (code, so, se) in zip(meta, e2e.run_many(jobs)):
+        n += 1
+        info = {'class': 'batch-rules-file-names', 'rules_files': list(o), 'data': list(dd), 'format': fmt, 'stdout': so[:900].decode('utf-8', 'replace'), 'stderr': se[-200:].decode('utf-8', 'replace')}
+        mine = [r for r in o if r in real]
+        if fmt == 'junit':
+            try:
+                root = ET.fromstring(so.decode())
+            except ET.ParseError as e:
+                ctx.failing('JUnit output is not well-formed XML: %s' % e, info, found=True)
+                continue
+            suites = list(root.iter('testsuite'))
+            if len(suites) != len(dd):
+                ctx.failing('JUnit has %d test suites for %d data files' % (len(suites), len(dd)), info, found=True)
+                continue
+            for y, suite in zip(dd, suites):
+                got = [(os.path.basename(tc.get('name') or ''), 'FAIL' if tc.find('failure') is not None else ('ERROR' if tc.find('error') is not None else
+                        ('SKIP' if (tc.get('status') == 'skip' or tc.find('skipped') is not None) else 'PASS'))) for tc in suite.iter('testcase')]
+                want = [(r, alone[(r, y)]) for r in mine]
+                if got != want:
+                    ctx.failing('rules files %s on %s: the JUnit suite lists %s; file by file the verdicts are %s' % (list(o), y, got, want), info, found=True)
+        else:
+            try:
+                rep = json.loads(so.decode())
+            except Exception as e:
+                ctx.failing('JSON output unreadable: %s' % e, info, found=True)
+                continue
+            for y, fr in zip(dd, rep):
+                got = {'PASS': sorted(fr['compliant']), 'SKIP': sorted(fr['not_applicable']), 'FAIL': sorted(x['Rule']['name'] for x in fr['not_compliant'] if 'Rule' in x)}
+                want = {'PASS': [], 'SKIP': [], 'FAIL': []}
+                for r in mine:
+                    want[alone[(r, y)]].append(r.split('.')[0].split('_')[0])
+                want = {k_: sorted(v) for k_, v in want.items()}
+                if got != want:
+                    ctx.failing('rules files %s on %s: the JSON report has %s; file by file the verdicts are %s' % (list(o), y, got, want), info, found=True)
+    ctx.coverage['rules_file_name_runs'] = n
+    ctx.coverage['evaluations'] += n
+    return n
+
+
+def run_params_batch(ctx):
+    """input parameters (-i) with several data files in one run: every data file is evaluated with the parameters, in every
+    order of the data files, in plain and structured modes - the verdict of a file is the verdict of that file alone with -i"""
+    files = {'r.guard': 'rule within {\n  size <= Limits.max <<too big>>\n}\nrule named {\n  Limits.name exists\n}\n', 'lim.json': '{"Limits": {"max": 10, "name": "n"}}',
+             'lim2.yaml': 'Extra:\n  k: 1\n', 'd1.json': '{"size": 5}', 'd2.json': '{"size": 50}', 'd3.yaml': 'size: 7\n'}
+    alone = {'d1.json': 'PASS', 'd2.json': 'FAIL', 'd3.yaml': 'PASS'}
+    d = os.path.join(ctx.wd, 'pb')
+    e2e.write_files(d, files)
+    jobs, meta = [], []
+    names = list(alone)
+    for k in (2, 3):
+        for od in itertools.permutations(names, k):
+            for params in (['-i', 'lim.json'], ['-i', 'lim.json', '-i', 'lim2.yaml']):
+                dargs = [x for y in od for x in ('-d', y)]
+                for mlab, flags in (('s-json', ['--structured', '-o', 'json', '-S', 'none']), ('s-junit', ['--structured', '-o', 'junit', '-S', 'none']), ('plain', ['-S', 'all'])):
+                    jobs.append({'args': ['validate', '-r', 'r.guard'] + dargs + params + flags, 'cwd': d}); meta.append((od, len(params) // 2, mlab))
+    n = 0
+    for (od, np_, mlab), (code, so, se) in zip(meta, e2e.run_many(jobs)):
+        n += 1
+        want_code = 19 if any(alone[y] == 'FAIL' for y in od) else 0
+        info = {'class': 'batch-parameters', 'data': list(od), 'parameter_files': np_, 'mode': mlab, 'stdout': so[:700].decode('utf-8', 'replace'), 'stderr': se[-300:].decode('utf-8', 'replace')}
+        if code != want_code:
+            ctx.failing('validate -i with data files %s (%s): exit %s; each file alone with -i gives %s' % (list(od), mlab, code, [alone[y] for y in od]), info, found=True)
+            continue
+        if mlab == 's-json':
+            try:
+                rep = json.loads(so.decode())
+                got = [fr['status'] for fr in rep]
+            except Exception as e:
+                ctx.failing('validate -i (%s): output unreadable: %s' % (mlab, e), info, found=True)
+                continue
+            if got != [alone[y] for y in od]:
+                ctx.failing('validate -i with data files %s: statuses %s; each file alone with -i gives %s' % (list(od), got, [alone[y] for y in od]), info, found=True)
+    ctx.coverage['parameter_batch_runs'] = n
+    ctx.coverage['evaluations'] += n
+    return n
+
+
 def run(ctx):
     ctx.build(cli=True)
     pr = ctx.proofs('C12')
@@ -317,7 +419,7 @@ def run(ctx):
         ctx.coverage['inventory_' + kind] = len(cur)
         inv_problems += ['%s: %s' % (kind, p) for p in problems]
     n1 = run_validate(ctx, 120 if thorough else 24, thorough)
-    n2 = run_test_cases(ctx, 100 if thorough else 20)
+    n2 = run_test_cases(ctx, 100 if thorough else 20) + run_rules_file_names(ctx) + run_params_batch(ctx)
     ctx.coverage['distinct_nontrivial'] = n1 + n2
     ctx.coverage['rule'] = ('scenario = 1..3 rules files (hand-written files reusing the names v, r0, r1, r2 and the capture variable k with different meanings, '
                             'and generated programs whose names collide) x 1..4 documents; every pair alone, then the batch in up to %d orders of -r/-d, as '
